@@ -1,9 +1,48 @@
-"""C07 Non-strict recovery is local (structural clauses; see DESIGN.md section 3, C07)"""
-from . import genrules
+"""C07 Non-strict recovery is local (structural clauses; see DESIGN.md section 3, C07)
+
+R07-stop   TAG_LIST == tags of the block's own match arms; default arm kind; tag source
+R07-skip   exits and diagnostics of the unknown-element skipping code (handle_unknown_taggedstruct_tag, get_next_tag_or_comment)
+           happen under the reviewed conditions (stop-list membership test, balance tests, token kinds)
+R07-once   exactly one diagnostic (error_or_log(unknown_sub_block)) on every path of the skip function, constructed first
+"""
+import re
+from . import genrules, mir, diag, c06
+from .common import Finding
+
+SKIP_FNS = ("parser::ParserState::handle_unknown_taggedstruct_tag", "parser::ParserState::get_next_tag_or_comment", "parser::ParserState::undo_get_token",
+            "parser::TokenIter::back")
+HUT = "parser::ParserState::<'a>::handle_unknown_taggedstruct_tag"
 
 
 def run(chk):
     genrules.r04_grammar(chk, rule="R07-grammar-aux", slot_rule="R07-aux-slot", stop_rule="R07-stop")
     chk.findings = [f for f in chk.findings if f.rule in ("R07-stop",)]
     chk.rules = [r for r in chk.rules if r["rule"] == "R07-stop"]
-    chk.assumptions += ["not decided: the /begin../end balance arithmetic and 'rest of file identical' (runtime)"]
+    prog = mir.prog()
+    diag.compare(chk, "R07-skip", "parser", c06.parser_table(prog), "diagnostics and hard-error exits of the unknown-element skipping code with their control predicates, compared with the reviewed table",
+                 floor=4, fn_filter=lambda fn: fn in SKIP_FNS)
+    # R07-once
+    b = prog.bodies.get(HUT)
+    n = 0
+    if b is None:
+        chk.add(Finding("R07-once", "R07-once::anchor", "handle_unknown_taggedstruct_tag not found"))
+    else:
+        eol = [(bi, t) for bi, t in b.calls() if (t.get("res") or "").endswith("error_or_log")]
+        logw = [(bi, t) for bi, t in b.calls() if (t.get("res") or "").endswith("log_warning")]
+        n = 1
+        if len(eol) != 1 or logw:
+            chk.add(Finding("R07-once", "R07-once::count", "handle_unknown_taggedstruct_tag must report the unknown element through exactly one error_or_log call (found %d error_or_log, %d log_warning calls)" % (len(eol), len(logw)), b.where()))
+        else:
+            bi, t = eol[0]
+            # on every path from entry to a return the call is passed exactly once: it dominates all returns reached with Ok, and is not in a loop
+            loops = b.natural_loops()
+            if any(bi in body for body in loops.values()):
+                chk.add(Finding("R07-once", "R07-once::loop", "the unknown-element diagnostic is emitted inside a loop: one unknown element can produce several warnings", b.where(t["ln"])))
+            for rb in b.return_blocks():
+                if not b.dominates(bi, rb) and b.path_avoiding([0], [bi], [rb]) is not None:
+                    # a return reachable without passing the diagnostic
+                    chk.add(Finding("R07-once", "R07-once::bypass", "handle_unknown_taggedstruct_tag can return without having reported the unknown element", b.where(t["ln"])))
+                    break
+    chk.rule("R07-once", "the skip function reports the unknown element exactly once on every path", n, floor=1)
+    chk.assumptions += ["not decided: the /begin../end balance arithmetic and 'rest of file identical' (runtime)",
+                        "oracle/diag_table.json is a reviewed snapshot of control predicates (semantic facts, not text)"]
